@@ -218,6 +218,9 @@ fn command_go(
         time = Some(Duration::from_millis(move_time));
     }
 
+    // Raise the flag before the timer exists: a timer that fires first must not be overwritten
+    search_is_running.store(true, Relaxed);
+
     if let Some(time) = time {
         if !infinite {
             // Cut 5 ms from the time because sleep always takes more than given
@@ -238,7 +241,6 @@ fn command_go(
     }
 
     let thread = thread::spawn({
-        search_is_running.store(true, Relaxed);
         let data_mutex = data_mutex.clone();
         let search_is_running = search_is_running.clone();
         move || {
